@@ -26,6 +26,9 @@ pub struct Src<'a> {
     pub hpos: usize,
     /// values produced by earlier steps of a program (may carry arbitrary hidden-lane content)
     pub pool: Option<&'a Pool>,
+    /// kind of use per consumed word: 0 other, 1 f32, 2 f64 (filled when `trace` is set)
+    pub kinds: Vec<u8>,
+    pub trace: bool,
 }
 
 /// Typed results of earlier calls, kept with their raw registers so that later steps of a program
@@ -43,16 +46,27 @@ pub const CANARY64: u64 = 0x7ff8_dead_beef_0001;
 
 impl<'a> Src<'a> {
     pub fn new(w: &'a [u64]) -> Self {
-        Src { w, pos: 0, hidden: None, hpos: 0, pool: None }
+        Src { w, pos: 0, hidden: None, hpos: 0, pool: None, kinds: Vec::new(), trace: false }
     }
     pub fn with_hidden(w: &'a [u64], h: &'a [u32]) -> Self {
-        Src { w, pos: 0, hidden: Some(h), hpos: 0, pool: None }
+        Src { w, pos: 0, hidden: Some(h), hpos: 0, pool: None, kinds: Vec::new(), trace: false }
     }
     #[inline]
     pub fn next(&mut self) -> u64 {
         let v = self.w[self.pos % self.w.len()];
         self.pos += 1;
+        if self.trace {
+            self.kinds.push(0);
+        }
         v
+    }
+    #[inline]
+    fn mark(&mut self, k: u8) {
+        if self.trace {
+            if let Some(l) = self.kinds.last_mut() {
+                *l = k;
+            }
+        }
     }
     #[inline]
     pub fn idx(&mut self, n: usize) -> usize {
@@ -72,11 +86,11 @@ impl<'a> Src<'a> {
     }
     pub fn slice_f32(&mut self, n: usize) -> Vec<f32> {
         let extra = self.idx(3);
-        (0..n + extra).map(|_| f32::from_bits(self.next() as u32)).collect()
+        (0..n + extra).map(|_| <f32 as Arg>::get(self)).collect()
     }
     pub fn slice_f64(&mut self, n: usize) -> Vec<f64> {
         let extra = self.idx(3);
-        (0..n + extra).map(|_| f64::from_bits(self.next())).collect()
+        (0..n + extra).map(|_| <f64 as Arg>::get(self)).collect()
     }
     pub fn mslice_f32(&mut self, n: usize) -> Vec<f32> {
         let extra = self.idx(3);
@@ -94,13 +108,17 @@ pub trait Arg: Sized {
 impl Arg for f32 {
     #[inline]
     fn get(s: &mut Src) -> f32 {
-        f32::from_bits(s.next() as u32)
+        let v = f32::from_bits(s.next() as u32);
+        s.mark(1);
+        v
     }
 }
 impl Arg for f64 {
     #[inline]
     fn get(s: &mut Src) -> f64 {
-        f64::from_bits(s.next())
+        let v = f64::from_bits(s.next());
+        s.mark(2);
+        v
     }
 }
 impl Arg for bool {
